@@ -114,10 +114,16 @@ type FuncVC struct {
 	tablesUsed  map[string]bool
 	inFinish    bool
 	strictState *State
+	stackCells  []stackCell
 	heapType    map[string]types.Type
 	callOrd     map[ssa.Instruction]int
 	assertBlk   []int // block index during which each assert was emitted (-1: global)
 	anc         map[int]map[int]bool
+}
+
+type stackCell struct {
+	addr Term
+	size int64
 }
 
 type deferred struct {
@@ -131,6 +137,7 @@ type loopInfo struct {
 	// state snapshot at head after havoc, for decreases
 	decr0 []Term
 	pre   *State // state before havoc (for loop-modifies frames and old())
+	head  *State // state at the loop head of the current (arbitrary) iteration, after havoc
 	heaps []string
 }
 
@@ -440,10 +447,14 @@ const rawPrelude = `
 (declare-fun st64 ((Array Int Int) Int Int) (Array Int Int))
 (declare-fun isbytes ((Array Int Int)) Bool)
 (define-fun isbyte ((v Int)) Bool (and (<= 0 v) (< v 256)))
-(define-fun sgn8 ((v Int)) Int (ite (>= v 128) (- v 256) v))
-(define-fun sgn16 ((v Int)) Int (ite (>= v 32768) (- v 65536) v))
-(define-fun sgn32 ((v Int)) Int (ite (>= v 2147483648) (- v 4294967296) v))
-(define-fun sgn64 ((v Int)) Int (ite (>= v 9223372036854775808) (- v 18446744073709551616) v))
+(declare-fun sgn8 (Int) Int)
+(declare-fun sgn16 (Int) Int)
+(declare-fun sgn32 (Int) Int)
+(declare-fun sgn64 (Int) Int)
+(assert (forall ((v Int)) (! (= (sgn8 v) (ite (>= v 128) (- v 256) v)) :pattern ((sgn8 v)))))
+(assert (forall ((v Int)) (! (= (sgn16 v) (ite (>= v 32768) (- v 65536) v)) :pattern ((sgn16 v)))))
+(assert (forall ((v Int)) (! (= (sgn32 v) (ite (>= v 2147483648) (- v 4294967296) v)) :pattern ((sgn32 v)))))
+(assert (forall ((v Int)) (! (= (sgn64 v) (ite (>= v 9223372036854775808) (- v 18446744073709551616) v)) :pattern ((sgn64 v)))))
 `
 
 // byteHeapFact: every cell of a byte heap is a byte.
